@@ -263,6 +263,29 @@ def main(chk):
                 chk.note('%s winding %s: only %d feasible sign branch(es)' % (name, pname, sides))
 
     chk.log('discharging %d obligations' % len(tasks))
+    # ---- bounding box with a free node slot: the input has an unreferenced point in slot 0 (freed by initialize_cell_properties), every
+    #      coordinate symbolic incl. the position of the unreferenced point; the box must be the tight box of the LIVE nodes ------------------
+    for name in (['T4'] if quick else ['T4', 'T5']):
+        m0 = M.CATALOGUE[name]
+        mx = {'name': name + '+unreferenced point in slot 0', 'pts': [(7.0, -3.0, 5.0)] + list(m0['pts']), 'faces': [tuple(v + 1 for v in f) for f in m0['faces']]}
+        Xx = M.sym_coords(mx)
+        live = Xx[1:]
+        A = [S.cmp('gt', M.signed_volume6(Xx, mx['faces']), S.ZERO)]
+        ctl, res = sess.explore('h_c12_geom_noorient', M.flat(Xx), M.iin_of(mx), assumptions=A, zctx=z, max_paths=16, branch_timeout_ms=20000, generic_position=True)
+        chk.absorb(session=sess, ctl=ctl)
+        good = [(tr, pc, r) for (tr, pc, r) in res if getattr(r, 'status', None) == 'ok']
+        if len(good) != 1 or not ctl.exhausted:
+            chk.fail_closed.append('%s: expected exactly one feasible path, got %r' % (mx['name'], [getattr(r, 'status', r) for (_, _, r) in res])); continue
+        tr, pc, r = good[0]
+        bb = r.dout[5:11]
+        for c in range(3):
+            lo = S.R(bb[c]); hi = S.R(bb[3 + c])
+            cl = S.TRUE; att_lo = S.FALSE; att_hi = S.FALSE
+            for p_ in live:
+                cl = S.band(cl, S.band(S.cmp('le', lo, p_[c]), S.cmp('ge', hi, p_[c])))
+                att_lo = S.bor(att_lo, S.cmp('eq', lo, p_[c])); att_hi = S.bor(att_hi, S.cmp('eq', hi, p_[c]))
+            add('%s/with a free node slot/aabb axis %d is the tight box of the live nodes' % (name, c), pc, S.band(cl, S.band(att_lo, att_hi)))
+
     # ---- longest axis: covariance matrix handed to the eigen-solver, selection of the largest eigenvalue ---------------------------------
     EIG = '_ZNK5mat3319eigen_decompositionEv'
     from irsym.interp import K_DOUBLE
@@ -412,6 +435,17 @@ def replay_geom(native, nm, model):
     din = model_coords(model, m)
     if '/longest axis/' in nm:
         return replay_axis(native, m, din)
+    if '/with a free node slot/' in nm:
+        mx = {'pts': [(7.0, -3.0, 5.0)] + list(m['pts']), 'faces': [tuple(v + 1 for v in f) for f in m['faces']]}
+        dinx = model_coords(model, mx)
+        q = native.call('h_c12_geom_noorient', dinx, M.iin_of(mx))
+        if q['status'] != 0 or len(q['d']) < 11: return {'reproduced': False, 'what': 'native run failed'}
+        pts = [dinx[3 * i:3 * i + 3] for i in range(1, len(mx['pts']))]
+        errs = []
+        for k in range(3):
+            lo = min(p_[k] for p_ in pts); hi = max(p_[k] for p_ in pts)
+            if q['d'][5 + k] != lo or q['d'][8 + k] != hi: errs.append('axis %d: box [%r, %r], live nodes span [%r, %r]' % (k, q['d'][5 + k], q['d'][8 + k], lo, hi))
+        return {'reproduced': bool(errs), 'what': '; '.join(errs) if errs else 'native box is the tight box of the live nodes', 'coords': dinx}
     q = native.call('h_c12_geom_noorient', din, M.iin_of(m))
     if q['status'] != 0 or not q['d']: return {'reproduced': False, 'what': 'native run failed'}
     pts = [din[3 * i:3 * i + 3] for i in range(len(m['pts']))]
